@@ -10,6 +10,10 @@ open RNacos.Driver
 def step (_ : Unit) (ws : List String) : Unit × String :=
   match ws with
   | "up" :: _ => ((), "ok")
+  | ["upauth", _] => ((), "ok")
+  | ["login", _, _] => ((), "*")
+  | ["tget", _, _, _] => ((), "status *")
+  | ["tpub", _, _, _, _] => ((), "status *")
   | ["start", _] | ["kill", _] | ["stop", _] | ["cont", _] | ["settle", _] => ((), "ok")
   | ["caughtup", _, _] => ((), "caughtup **")
   | "pub" :: _ | "rm" :: _ | "reg" :: _ | "dereg" :: _ | "beat" :: _ | "greg" :: _ | "gdereg" :: _ => ((), "*")
@@ -33,6 +37,9 @@ structure SpecSt where
   gheld : List (String × String × String) := []          -- node, service, "ip:port": instances registered over a gRPC connection to that node
   gdead : List (String × String) := []                   -- service, address: held by the connections of a node that was killed
   sinceKill : Nat := 0                                   -- settling time (ms) since that kill
+  ttl : Nat := 0                                         -- lifetime (s) of access tokens (scenarios with OpenAPI auth on)
+  clock : Nat := 0                                       -- settling time (ms) so far: a lower bound of the time that has passed
+  tokens : List (String × Nat) := []                     -- alias, clock at which the login answered
 
 def showV (v : Option String) : String := match v with | some x => x | none => "none"
 
@@ -62,6 +69,25 @@ def specStep (s : SpecSt) (ws : List String) : SpecSt × String :=
       -- violation of the properties checked here (start-up is not their subject) but is visible in the evidence
       ({ pending := [], writes := [⟨"verif-up", some "up", true⟩], formed := ans == ["ok"] },
         if ans == ["ok"] then "spec ok" else "-")
+    | ["upauth", ttl] =>
+      ({ pending := [], ttl := ttl.toNat?.getD 0, formed := ans == ["ok"] }, if ans == ["ok"] then "spec ok" else "-")
+    | ["login", _, a] =>
+      if ans == ["ok"] then ({ s0 with tokens := (a, s.clock) :: s.tokens.filter (·.1 != a) }, "spec ok") else (s0, "-")
+    | "tget" :: _ :: a :: _ | "tpub" :: _ :: a :: _ =>
+      -- C16: a request that carries no token, a made-up one, or one whose lifetime has passed is refused - whatever
+      -- happened to the node in between (restarts replay the log entry that stored the token)
+      if !s.formed || ans.length != 2 then (s0, "-") else
+      let code := ans.getD 1 ""
+      if code == "down" then (s0, "-") else
+      if a == "none" || a == "garbage" then
+        (s0, if code == "403" then "spec ok" else s!"spec FAIL a data endpoint answers {code} to a request without a valid token")
+      else match s.tokens.find? (·.1 == a) with
+        | none => (s0, "-")
+        | some (_, t0) =>
+          if s.clock ≥ t0 + s.ttl * 1000 + 1000 then
+            (s0, if code == "403" then "spec ok"
+                 else s!"spec FAIL a data endpoint answers {code} to a token issued at least {(s.clock - t0) / 1000} s ago; tokens live {s.ttl} s")
+          else (s0, "-")
     | ["pub", _, k, v] => ({ s0 with writes := s.writes ++ [⟨k, some v, ans == ["ok"]⟩] }, "-")
     | ["rm", _, k] => ({ s0 with writes := s.writes ++ [⟨k, none, ans == ["ok"]⟩] }, "-")
     | ["reg", _, svc, ip, port, _] =>
@@ -89,7 +115,7 @@ def specStep (s : SpecSt) (ws : List String) : SpecSt × String :=
       -- the clients reconnect to the restarted node and register again: presence is not predicted any more
       let back := (s.gheld.filter (·.1 == i)).map (·.2)
       ({ s0 with gdead := s.gdead.filter (fun e => !back.contains e) }, "-")
-    | ["settle", ms] => ({ s0 with sinceKill := s.sinceKill + ms.toNat?.getD 0 }, "-")
+    | ["settle", ms] => ({ s0 with sinceKill := s.sinceKill + ms.toNat?.getD 0, clock := s.clock + ms.toNat?.getD 0 }, "-")
     | ["caughtup", i, ms] =>
       -- C08: a node that joined late or fell behind is caught up (log or snapshot) - within the bound given
       (s0, if ans.getD 1 "" == "ok" then "spec ok"
